@@ -10,34 +10,38 @@ import (
 
 // Profile selects the language features a generated program may use.
 type Profile struct {
-	Name         string
-	MulDiv       bool
-	Lambdas      bool
-	StrMatch     bool
-	Interp       bool
-	RawStr       bool
-	Tuple3       bool
-	InnerFun     bool
-	IfOnly       bool
-	UnionNoDef   bool // union match without default (exhaustive)
-	FieldPerm    bool // record literal fields in another order / Rec. prefix
-	Partial      bool
-	Pipes        bool
-	HigherOrder  bool // user functions with function-typed parameters
-	CompositeEq  bool // = / <> on records, tuples, slices, unions
-	UsField      bool // _.Field
-	SliceLib     bool
-	StringsLib   bool
-	TopVars      bool
-	Shadow       bool
-	LowerFields  bool // records with lower-case field names
-	Recursion    bool
-	StrCompare   bool
-	GenericFns   bool // unannotated generic helper functions
-	LetRhsInline bool // the right-hand side of a let is always a one-line expression
-	MinFuncs     int
-	MaxFuncs     int
-	MaxDepth     int
+	Name           string
+	MulDiv         bool
+	Lambdas        bool
+	StrMatch       bool
+	Interp         bool
+	RawStr         bool
+	Tuple3         bool
+	InnerFun       bool
+	IfOnly         bool
+	UnionNoDef     bool // union match without default (exhaustive)
+	FieldPerm      bool // record literal fields in another order / Rec. prefix
+	Partial        bool
+	Pipes          bool
+	HigherOrder    bool // user functions with function-typed parameters
+	CompositeEq    bool // = / <> on records, tuples, slices, unions
+	UsField        bool // _.Field
+	SliceLib       bool
+	StringsLib     bool
+	TopVars        bool
+	Shadow         bool
+	LowerFields    bool // records with lower-case field names
+	Recursion      bool
+	StrCompare     bool
+	GenericFns     bool // unannotated generic helper functions
+	LetRhsInline   bool // the right-hand side of a let is always a one-line expression
+	NoIf           bool // no if expressions (C02: not in the list of constructs with promised inference)
+	NoMatch        bool
+	NoFieldAcc     bool
+	FuncParamApply bool // function-typed parameters of pure functions, applied once in the body
+	MinFuncs       int
+	MaxFuncs       int
+	MaxDepth       int
 }
 
 var ProfileC01 = Profile{Name: "c01", MulDiv: true, Lambdas: true, StrMatch: true, Interp: true, RawStr: true, Tuple3: true, InnerFun: true, IfOnly: true,
@@ -111,6 +115,7 @@ type Gen struct {
 	hasGid     bool
 	hasGsnd    bool
 	inTopBlock bool // generating the outermost block of a top-level function
+	applied    map[string]bool
 }
 
 func (g *Gen) feat(f string) { g.Features[f]++ }
@@ -134,7 +139,7 @@ func (g *Gen) strLitVal() string { return core.Pick(g.R, wordPool) }
 // Generate builds one program for the given profile. pkg is the package name; the
 // entry point is `Run ()`.
 func Generate(r *core.Rand, p Profile, pkg string) (*Program, map[string]int) {
-	g := &Gen{R: r, P: p, shows: map[string]string{}, Features: map[string]int{}}
+	g := &Gen{R: r, P: p, shows: map[string]string{}, Features: map[string]int{}, applied: map[string]bool{}}
 	// the observers use slice.Map and strings.Concat, so all three packages are always imported
 	g.prog = &Program{Pkg: pkg, Imports: []string{"frt", "slice", "strings"}, Tiny: p.Name == "tinyfo"}
 	g.genTypes()
@@ -415,7 +420,12 @@ func (g *Gen) genFunc(pure bool) {
 	sc := &scope{goNames: map[string]bool{}}
 	for i := 0; i < np; i++ {
 		var t *Type
-		if !pure && g.P.HigherOrder && g.R.Chance(0.15) {
+		if pure && g.P.FuncParamApply && g.R.Chance(0.25) {
+			a := core.Pick(g.R, []*Type{TInt, TString})
+			b := core.Pick(g.R, []*Type{TInt, TString, TBool})
+			t = TFunc(a, b)
+			g.feat("func-typed-param")
+		} else if !pure && g.P.HigherOrder && g.R.Chance(0.15) {
 			// function-typed parameter
 			a := core.Pick(g.R, []*Type{TInt, TString})
 			b := core.Pick(g.R, []*Type{TInt, TString, TBool})
@@ -815,9 +825,9 @@ func (g *Gen) blockExpr(t *Type, sc *scope, d int, fx bool) Expr {
 		return g.expr(t, sc, 0, fx)
 	}
 	switch k := g.R.Intn(10); {
-	case k < 2:
+	case k < 2 && !g.P.NoIf:
 		return g.ifExpr(t, sc, d, fx)
-	case k < 4:
+	case k < 4 && !g.P.NoMatch:
 		if m := g.matchU(t, sc, d, fx); m != nil {
 			return m
 		}
@@ -1221,6 +1231,8 @@ func (g *Gen) tryExpr(t *Type, sc *scope, d int, fx bool) Expr {
 			return nil
 		}
 		return g.callFunc(core.Pick(g.R, c), sc, d, fx)
+	case k == 3 && g.P.NoFieldAcc:
+		return nil
 	case k == 3:
 		// field access on a record variable
 		for _, vi := range sc.visible(nil) {
@@ -1271,9 +1283,20 @@ func (g *Gen) tryExpr(t *Type, sc *scope, d int, fx bool) Expr {
 		return &Pipe{src, &Call{Fn: v(f.Name), Args: args}}
 	case k == 5:
 		// inline if
-		if d >= 1 && g.R.Chance(0.5) {
+		if d >= 1 && g.R.Chance(0.5) && !g.P.NoIf {
 			g.feat("inline-if")
 			return &If{Cond: g.expr(TBool, sc, d-1, fx), Then: ExprBlock(g.expr(t, sc, d-1, fx)), Else: ExprBlock(g.expr(t, sc, d-1, fx))}
+		}
+		return nil
+	case k == 9 && g.P.FuncParamApply:
+		// a function-typed parameter applied (once)
+		for _, vi := range sc.visible(nil) {
+			if vi.t.K == KFunc && len(vi.t.Args) == 2 && vi.t.Result().Eq(t) && !g.applied[vi.name] {
+				g.applied[vi.name] = true
+				*vi.used = true
+				g.feat("function-parameter-applied")
+				return &Call{Fn: v(vi.name), Args: []Expr{g.expr(vi.t.Args[0], sc, d-1, fx)}}
+			}
 		}
 		return nil
 	case k == 6:
@@ -1558,4 +1581,26 @@ func (g *Gen) sliceExpr(t *Type, sc *scope, d int, fx bool, k int) Expr {
 		}
 	}
 	return nil
+}
+
+// ProfileC02: only the constructs for which the documentation promises inference.
+var ProfileC02 = Profile{Name: "c02", MulDiv: true, Tuple3: true, FieldPerm: true, Partial: false, Pipes: true, CompositeEq: true, SliceLib: true, StringsLib: true,
+	StrCompare: true, GenericFns: true, NoIf: true, NoMatch: true, NoFieldAcc: true, FuncParamApply: true, LetRhsInline: true, MinFuncs: 0, MaxFuncs: 0, MaxDepth: 3}
+
+// GenerateC02 builds a package of type definitions followed by n pure functions whose
+// parameters are all annotated; the check erases subsets of the annotations.
+func GenerateC02(r *core.Rand, pkg string, n int) (*Program, []*FuncDef) {
+	g := &Gen{R: r, P: ProfileC02, shows: map[string]string{}, Features: map[string]int{}, applied: map[string]bool{}}
+	g.prog = &Program{Pkg: pkg, Imports: []string{"frt", "slice", "strings"}}
+	g.genTypes()
+	g.genGenericHelpers()
+	var subjects []*FuncDef
+	for i := 0; i < n; i++ {
+		before := len(g.funcs)
+		g.genFunc(true)
+		f := g.funcs[before]
+		f.AnnotRet = false
+		subjects = append(subjects, f)
+	}
+	return g.prog, subjects
 }
